@@ -19,6 +19,9 @@ RULE = (
     "(a token cut at max_length, or a final partial piece, or the stream ends inside "
     "an extended stretch); distinct = distinct canonical JSON of the case."
 )
+RULE += (
+    ' Exhaustive reuse part: every accepted parameter tuple with max_length <= 3 (thorough: 4) x every earlier stream of 1..5 (6) frames x how it was left (list run, generator unstarted / advanced one token and abandoned, two generators requested up front) x every later stream of 1..4 (5) frames: the used tokenizer must satisfy the property like a fresh one.'
+)
 MUST_HIT = [
     "remainder_delivered",
     "partial_rejected",
@@ -127,6 +130,9 @@ def jobs(tier, seed):
             {"name": f"hyp-{i}", "kind": "hyp", "seed": seed * 1000 + i,
              "n": b["hyp_examples"], "maxlen": b["maxlen"], "maxmax": b["maxmax"]}
         )
+    from ..tokjobs import reuse_jobs
+
+    out = reuse_jobs(tier) + out
     if tier == "thorough":
         out.insert(0, {"name": "atheris-empty-corpus", "kind": "fuzz", "seed": seed, "runs": 300000, "corpus": False})
         out.insert(0, {"name": "atheris-seeded-corpus", "kind": "fuzz", "seed": seed + 1, "runs": 300000, "corpus": True})
@@ -179,6 +185,10 @@ def run_job(job, rec):
         run_fuzz(job, rec)
     elif job["kind"] == "exh":
         run_cases(mod, _exh_cases(job["n"], job["lo"], job["hi"], job["M"]), rec)
+    elif job["kind"] == "exh_reuse":
+        from ..tokjobs import reuse_cases
+
+        run_cases(mod, reuse_cases(job["shard"], job["nshards"], job["M"], job["Lpre"], job["Lmain"]), rec)
     else:
         strat = gen.tok_case(job["maxmax"], job["maxlen"], init="default")
         hyp_run(mod, strat, rec, job["seed"], job["n"])
